@@ -1,36 +1,36 @@
 // scratch probes against the real API (no harness model in the loop)
 use automerge::transaction::Transactable;
 use automerge::*;
-use std::collections::HashMap;
+
+fn show(d: &AutoCommit, l: &ObjId, label: &str) {
+    let len = d.length(l);
+    let vals: Vec<String> = (0..len + 1).map(|i| format!("{:?}", d.get_all(l, i).unwrap().iter().map(|x| x.0.to_string()).collect::<Vec<_>>())).collect();
+    println!("{label}: length={len} get_all by index={vals:?} invariants={:?}", d.verif_check_invariants());
+}
 
 fn main() {
-    // init_root_from_hydrate on a document that already has a key
-    let mut a = AutoCommit::new();
-    let l = a.put_object(ROOT, "l", ObjType::List).unwrap();
-    a.insert(&l, 0, 1).unwrap();
-    let m: HashMap<String, hydrate::Value> = [("r0".to_string(), hydrate::Value::Scalar(ScalarValue::Int(102))), ("r1".to_string(), hydrate::Value::Scalar(ScalarValue::Str("x".into())))].into_iter().collect();
-    let r = a.init_root_from_hydrate(&hydrate::Map::from(m.clone()));
-    println!("init_root_from_hydrate (pending tx) -> {r:?}; keys = {:?}", a.keys(ROOT).collect::<Vec<_>>());
-    let mut a2 = AutoCommit::new();
-    let l = a2.put_object(ROOT, "l", ObjType::List).unwrap();
-    a2.insert(&l, 0, 1).unwrap();
-    a2.commit();
-    let r = a2.init_root_from_hydrate(&hydrate::Map::from(m.clone()));
-    println!("init_root_from_hydrate (after commit) -> {r:?}; keys = {:?}", a2.keys(ROOT).collect::<Vec<_>>());
-    let mut a3 = AutoCommit::new();
-    let r = a3.init_root_from_hydrate(&hydrate::Map::from(m));
-    println!("init_root_from_hydrate (empty doc) -> {r:?}; keys = {:?}", a3.keys(ROOT).collect::<Vec<_>>());
-
-    // update_object on a list
-    let mut d = AutoCommit::new();
-    let l = d.put_object(ROOT, "l", ObjType::List).unwrap();
-    d.insert(&l, 0, 1).unwrap();
-    d.insert(&l, 1, 2).unwrap();
-    d.commit();
-    let v = hydrate::Value::List(hydrate::List::from(vec![hydrate::Value::Scalar(ScalarValue::Str("only".into()))]));
-    let r = d.update_object(&l, &v);
-    println!("update_object(list [1,2] -> [only]) -> {r:?}; list = {:?}", d.hydrate(&l, None));
-    let v = hydrate::Value::List(hydrate::List::from(vec![]));
-    let r = d.update_object(&l, &v);
-    println!("update_object(list -> []) -> {r:?}; list = {:?}", d.hydrate(&l, None));
+    for later in 0..4 {
+        let mut d = AutoCommit::new().with_actor(ActorId::from(vec![1u8]));
+        let l = d.put_object(ROOT, "l", ObjType::List).unwrap();
+        for (i, v) in ["a", "b", "c"].iter().enumerate() { d.insert(&l, i, *v).unwrap(); }
+        d.commit();
+        let h1 = d.get_heads();
+        // later changes outside the isolation heads
+        match later {
+            0 => {}
+            1 => { d.delete(&l, 1).unwrap(); }
+            2 => { d.put(&l, 1, "B").unwrap(); }
+            _ => { d.insert(&l, 1, "x").unwrap(); d.delete(&l, 0).unwrap(); }
+        }
+        d.commit();
+        d.isolate(&h1);
+        d.put(&l, 0, false).unwrap();
+        d.splice(&l, 1, 2, vec![hydrate::Value::Scalar(ScalarValue::Uint(9))]).unwrap();
+        show(&d, &l, &format!("later={later} isolated, in tx"));
+        d.commit();
+        d.integrate();
+        show(&d, &l, &format!("later={later} after integrate"));
+        let r = AutoCommit::load(&d.save()).unwrap();
+        show(&r, &l, &format!("later={later} reload"));
+    }
 }
